@@ -19,7 +19,9 @@ after one call, connected-but-silent, half a message then nothing, a malformed m
 reply stream, read to EOF after a sentinel and half-close, satisfies the C01 reply-stream checker for its own \
 requests (so a reply carrying another client's token, a missing or a surplus reply is a failure). A client that \
 does not complete while the misbehaving peers are open but completes once they are closed - in two consecutive \
-runs of the same round - is reported as blocked. Non-trivial: at least 2 clients whose lifetimes overlap \
+runs of the same round - is reported as blocked; a connection the service closes although none of its own requests \
+ends a connection is reported as disturbed. After the rounds, on fresh servers: 3 simultaneous connections, 1.3-11 s \
+without traffic, then again 3 simultaneous connections of which two sit idle (a pool that shrinks must not strand the third). Non-trivial: at least 2 clients whose lifetimes overlap \
 (measured) and at least one misbehaving peer; distinct by round.";
 
 #[derive(Clone, Debug)]
@@ -140,6 +142,14 @@ fn client_run(addr: &str, c: &Client, number: usize) -> Result<(), Fail> {
     let _ = peer.wait_eof(Duration::from_secs(10));
     let bytes = peer.finish();
     let mut replies = split_replies(where_, &bytes)?;
+    if !seen && !(st.syms.iter().any(|x| x.closes()) || st.exps.iter().any(|e| e.may_close_instead)) {
+        // C01 lets a service close whenever it likes; here a connection that did nothing to deserve it
+        // and is closed under its owner's feet has been disturbed by somebody else
+        return Err(Fail::new(
+            format!("{}/closed-without-cause", where_),
+            format!("client #{} of the round: the service closed the connection after {} replies although none of the client's requests ends a connection", number, replies.len()),
+        ));
+    }
     let end = if seen {
         match replies.last() {
             Some(l) if l["parameters"]["token"] == tok.as_str() => {
@@ -339,6 +349,16 @@ fn replay(ctx: &mut Ctx, v: &Value) {
     ctx.force_sample(v["case"].clone());
     let s = start_servers(ctx.seed + 77);
     let mut res = Ok(());
+    if let Some(q) = v["case"]["quiet_ms"].as_u64() {
+        let t = v["case"]["transport"].as_u64().unwrap_or(0) as usize % 3;
+        let _ = t;
+        for _ in 0..2 {
+            if let Err(f) = quiet_then_idle(Duration::from_millis(q)) {
+                res = Err(f);
+                break;
+            }
+        }
+    } else {
     for _ in 0..20 {
         match run_round(&s.addrs, &r) {
             Ok(RoundOutcome::BlockedUntilBadClosed(k)) => {
@@ -354,12 +374,61 @@ fn replay(ctx: &mut Ctx, v: &Value) {
             }
         }
     }
+    }
     if let Err(f) = res {
         ctx.violation(&f.key, &f.what, "c13-replay", v["case"].clone());
     }
     for sv in s.servers {
         let _ = sv.stop();
     }
+}
+
+/// A pool that has grown, then seen nothing for a while, must still serve as many connections at
+/// once as it did before. Every attempt uses a fresh server (1 initial worker, limit 100): three
+/// simultaneous connections, `quiet` without traffic, three simultaneous connections again of which
+/// two sit idle. Which worker waits at the queue during the quiet time depends on the schedule, so up
+/// to five attempts are made; two attempts in which the newcomer is served only once the idle peers
+/// are closed make a violation. Returns Ok(false) when an attempt stalled without that pattern.
+fn quiet_then_idle(quiet: Duration) -> Result<bool, Fail> {
+    let simple = |k: usize| Client { syms: vec![Sym { kind: Kind::Echo, flag: Flag::None }; 1 + k % 3], style: 0, cuts: vec![], pauses: vec![] };
+    let mut blocked = 0;
+    for attempt in 0..5 {
+        let scratch = Scratch::new("c13q");
+        let a = scratch.unix_addr("q.sock");
+        let addrs = [a.clone(), a.clone(), a.clone()];
+        let server = Server::start(t_service().0, &a, 1, 100, 0);
+        let round = Round { transport: 0, clients: vec![simple(attempt)], bad: vec![Bad::IdleAfterCall, Bad::IdleAfterCall] };
+        let first = run_round(&addrs, &round)?;
+        if !matches!(first, RoundOutcome::Ok { .. }) {
+            let _ = server.stop();
+            return Ok(false);
+        }
+        std::thread::sleep(quiet);
+        let out = run_round(&addrs, &round);
+        let _ = server.stop();
+        match out? {
+            RoundOutcome::Ok { .. } => {
+                if attempt >= 2 && blocked == 0 {
+                    return Ok(true);
+                }
+            }
+            RoundOutcome::BlockedUntilBadClosed(_) => {
+                blocked += 1;
+                if blocked >= 2 {
+                    return Err(Fail::new(
+                        "listen/blocked-by-other-connection",
+                        format!(
+                            "fresh server, 3 simultaneous connections, {} ms without traffic, then 3 simultaneous connections again: the third was served only once the two idle ones were closed (in 2 of {} attempts)",
+                            quiet.as_millis(),
+                            attempt + 1
+                        ),
+                    ));
+                }
+            }
+            RoundOutcome::Hung => return Ok(false),
+        }
+    }
+    Ok(blocked == 0)
 }
 
 pub fn run(args: &Args) -> ! {
@@ -406,6 +475,25 @@ pub fn run(args: &Args) -> ! {
     });
     if let Some((round, f)) = r {
         ctx.violation(&f.key, &f.what, "c13-round", round_json(&round));
+    }
+    // quiet periods: whatever the pool does with workers it no longer needs must not cost a newcomer
+    let quiets: Vec<u64> = ctx.tier.pick(vec![1300, 2200], vec![300, 1300, 2200, 3500, 6000, 11000]);
+    for (k, q) in quiets.iter().enumerate() {
+        if ctx.failed() {
+            break;
+        }
+        ctx.class("quiet-period-then-idle-peers");
+        match quiet_then_idle(Duration::from_millis(*q)) {
+            Ok(true) => ctx.case(Some(hash64(&("quiet", k, q)))),
+            Ok(false) => {
+                ctx.case(None);
+                hung.set(hung.get() + 1);
+            }
+            Err(f) => {
+                ctx.case(None);
+                ctx.violation(&f.key, &f.what, "c13-quiet", json!({"quiet_ms": q, "transport": k % 3}));
+            }
+        }
     }
     if hung.get() > 0 {
         ctx.inconclusive(&format!("{} rounds stalled without the blocked-until-closed pattern", hung.get()));
